@@ -86,7 +86,7 @@ Qed.
 Lemma pdf_core k input path chunks fin w w1 r w' :
   wfs w1 = wfs w -> wcnt w <= wcnt w1 ->
   (fin = COk \/ quiet pl (wcnt w)) ->
-  (k = KFlag \/ fin <> CPanic) ->
+  safe_for k fin ->
   match create_staged_file pl fresh path w1 with
   | Fail _ w => (CErr, match input with Some i => world_of (close pl i w) | None => w end)
   | Done t w =>
@@ -95,10 +95,11 @@ Lemma pdf_core k input path chunks fin w w1 r w' :
                              | ACommit => finish_staged_file pl path t false input w
                              | ACleanup => finish_staged_file pl path t true input w
                              | ANothing => (r, w)
+                             | ACommitKeep => (r, snd (finish_staged_file pl path t false input w))
                              end) w
   end = (r, w') -> r <> COk -> wfs w' = wfs w.
 Proof.
-  intros Hfo Hco Hcause Hkey.
+  intros Hfo Hco Hcause Hkey. pose proof (safe_for_not_always k fin Hkey) as Hna.
   pose proof (create_staged_file_spec path w1) as Hopen.
   destruct (create_staged_file pl fresh path w1) as [t w2|e w2].
   2: { destruct Hopen as (Hf2 & Hc2). intros [= <- <-] _.
@@ -111,11 +112,11 @@ Proof.
   { destruct Hres as [Hfin|(Herr & j & Hj & Hpj)].
     - subst rb. destruct Hcause as [->|Hq]; [left; split; reflexivity|].
       destruct fin; [left; split; reflexivity| |].
-      + right. split; [destruct k; reflexivity|]. eapply quiet_mono; [exact Hq|lia].
-      + right. split; [destruct Hkey as [->|Hne]; [reflexivity|congruence]|]. eapply quiet_mono; [exact Hq|lia].
-    - subst rb. right. split; [destruct k; reflexivity|]. eapply amo_quiet_lt; [exact Hamo|exact Hpj|lia]. }
+      + right. split; [destruct k; first [reflexivity|exfalso; apply Hna; reflexivity]|]. eapply quiet_mono; [exact Hq|lia].
+      + right. split; [destruct Hkey as [->|[_ Hne]]; [reflexivity|congruence]|]. eapply quiet_mono; [exact Hq|lia].
+    - subst rb. right. split; [destruct k; first [reflexivity|exfalso; apply Hna; reflexivity]|]. eapply amo_quiet_lt; [exact Hamo|exact Hpj|lia]. }
   destruct Hcases as [[-> ->]|[Hcm Hq]].
-  - replace (decide k COk) with ACommit by (destruct k; reflexivity).
+  - replace (decide k COk) with ACommit by (destruct k; first [reflexivity|exfalso; apply Hna; reflexivity]).
     destruct (finish_staged_file pl path t false input w3) as [rc w4] eqn:Hfin.
     intros [= <- <-] Hr.
     eapply (finish_staged_file_spec (wfs w) path t false input w3 rc w4 Hinv3); [discriminate|exact Hfin|exact Hr].
@@ -130,7 +131,7 @@ Qed.
 
 Lemma pdf_staged_safe_gen k input path chunks fin w r w' :
   (fin = COk \/ quiet pl (wcnt w)) ->
-  (k = KFlag \/ fin <> CPanic) ->
+  safe_for k fin ->
   pdf_staged pl fresh k input path chunks fin w = (r, w') -> r <> COk -> wfs w' = wfs w.
 Proof.
   intros Hcause Hkey. unfold pdf_staged. destruct input as [i|].
@@ -175,7 +176,7 @@ End PdfProofs.
 Lemma pdf_staged_fault_safe_proof fresh :
   (forall m, m !! fresh m = None) ->
   forall pl fin, one_cause pl fin ->
-  forall k input path chunks m0 tr, (k = KFlag \/ fin <> CPanic) ->
+  forall k input path chunks m0 tr, safe_for k fin ->
   forall r w', pdf_staged pl fresh k input path chunks fin (W m0 0 tr) = (r, w') -> r <> COk ->
   unchanged m0 (wfs w').
 Proof.
@@ -210,3 +211,17 @@ Lemma nodefer_panic_leaks_refuted_proof :
 Proof.
   eexists _, _, 3%positive. split; [vm_compute; reflexivity|]. split; [reflexivity|]. split; vm_compute; reflexivity.
 Qed.
+
+(* pdfcpu.WriteContext as it is (the deferred finishWriteFile reads a shadowed, always-nil err): a body
+   that merely RETURNS an error already publishes the partial file over the existing output, and the
+   function still returns that error *)
+Lemma shadowed_err_commits_on_error_refuted_proof :
+  exists r w', pdf_staged nofault fresh_path KAlways None 2%positive [[1%N]] CErr (W refute_m0 0 []) = (r, w') /\
+    r = CErr /\ wfs w' !! 2%positive = Some (File [1%N] mode_new) /\ ~ unchanged refute_m0 (wfs w').
+Proof.
+  eexists _, _. split; [vm_compute; reflexivity|]. split; [reflexivity|]. split; [vm_compute; reflexivity|].
+  intros [Hsame _]. specialize (Hsame 2%positive). vm_compute in Hsame. discriminate Hsame.
+Qed.
+
+Lemma fresh_hi_spec (m : gmap positive file) : m !! fresh_hi m = None.
+Proof. apply fresh_path_above. unfold fresh_hi. apply Pos.le_max_r. Qed.
